@@ -84,6 +84,11 @@ Protected(c, k) ==
   /\ k[1] = SYS
   /\ ~(Len(k) >= 4 /\ k[2] = CLIENTS /\ k[3] = c /\ k[4] \in {GG, LW, CNAME})
 
+\* a pattern of an ordinary client whose first segment is a wildcard does not
+\* reach below $SYS at all
+Deletable(c, pat, k) ==
+  ~Protected(c, k) /\ ~(c # INT /\ pat[1] \in {WILD, MULTI} /\ k[1] = SYS)
+
 RefGet(ref, k) == IF k \in DOMAIN ref THEN ref[k] ELSE NoneE
 RefMatches(ref, p) == {k \in DOMAIN ref : Matches(p, k)}
 
@@ -112,7 +117,7 @@ RefBury(X, ggs, c) ==
   IF ggs = <<>> THEN X
   ELSE LET p == Head(ggs)
            keys == IF p = <<"">> \/ ~Legal(p) \/ ReadOnlyCheck(p, c) # -1 THEN {}
-                   ELSE {k \in RefMatches(X.ref, p) : ~Protected(c, k)}
+                   ELSE {k \in RefMatches(X.ref, p) : Deletable(c, p, k)}
        IN RefBury(RefDrop(X, keys), Tail(ggs), c)
 
 RECURSIVE RefWill(_, _, _)
@@ -207,7 +212,7 @@ RefStep(X, r, o) ==
          LET e == IF ok /\ ~Protected(r.c, r.key) /\ r.key \in DOMAIN X.ref THEN RefDrop(E0, {r.key}) ELSE E0
          IN [R |-> [X EXCEPT !.ref = e.ref], exp |-> [NoExp EXCEPT !.ev = e.ev]]
     [] r.op = "pdelete" ->
-         LET keys == IF ok THEN {k \in RefMatches(X.ref, r.pat) : ~Protected(r.c, k)} ELSE {}
+         LET keys == IF ok THEN {k \in RefMatches(X.ref, r.pat) : Deletable(r.c, r.pat, k)} ELSE {}
              e == RefDrop(E0, keys)
          IN [R |-> [X EXCEPT !.ref = e.ref],
              exp |-> [NoExp EXCEPT !.ev = e.ev,
